@@ -192,7 +192,13 @@ def gen_nexus_doc(rng):
             cands = [t for t in taxa_titles if t]
             if cands and rng.random() < 0.85:
                 linked = rng.choice(cands)
-                doc += "  " + kc("LINK") + " " + kc("TAXA") + " = " + linked + ";\n"
+                extra = rng.choice(["", "", "", kc("CHARACTERS") + " = c1 ", "Foo = bar ", "x "])
+                if extra and rng.random() < 0.5:
+                    doc += "  " + kc("LINK") + " " + kc("TAXA") + " = " + linked + " " + extra.strip() + ";\n"
+                else:
+                    doc += "  " + kc("LINK") + " " + extra + kc("TAXA") + " = " + linked + ";\n"
+                if extra:
+                    feats["link_other_target"] = True
                 feats["link"] = True
             elif ntaxa_blocks == 2:
                 feats["missing_link"] = True
@@ -612,8 +618,12 @@ def is_err(x):
 
 
 UNATTACHED_ERRORS = ("TooManyTaxaError", "UndefinedBlockError", "MultipleBlockWithSameTitleError", "LinkRequiredError")
-INVALID_FEATURES = ("ntax_short", "no_dimensions", "bad_header", "ends_after_eq", "no_end", "late_statement",
+INVALID_FEATURES = ("ntax_short", "bad_header", "ends_after_eq", "no_end", "late_statement",
                     "missing_semicolon", "missing_link", "translate_trailing_comma", "fixed")
+
+
+import re
+LINK_2ND_CLAUSE_NOT_UPPER = re.compile(r"(?i:link)\s+\S+\s*=\s*\S+\s+(?!TAXA\b|CHARACTERS\b)(?i:taxa|characters)\b")
 
 
 def is_valid_doc(case):
@@ -665,7 +675,12 @@ def oracle_run(case, run):
         """route failed although the reference delivers / fails differently"""
         if not valid:
             return
-        if is_err(got) and err_class(got) in UNATTACHED_ERRORS and want_err is None:
+        if is_err(got) and err_class(got) in ("LinkRequiredError", "UndefinedBlockError") and want_err is None \
+                and LINK_2ND_CLAUSE_NOT_UPPER.search(case["doc"]):
+            # _parse_link_statement upper-cases only the first keyword of a LINK statement
+            viol("%s fails with %s although %s: the second clause of the LINK statement is matched case-sensitively"
+                 % (route, got["msg"], want_desc), "link-clause-case-sensitive")
+        elif is_err(got) and err_class(got) in UNATTACHED_ERRORS and want_err is None:
             # TreeList / Tree routes coerce every TAXA block into one namespace without attaching it to the reader
             viol("%s fails with %s although %s" % (route, got["msg"], want_desc), "reader-not-attached:" + err_class(got))
         else:
@@ -983,11 +998,14 @@ def lower_pairs(strings):
 
 
 _VARIANTS = {}
+LINK_CASE_DOC = ("#NEXUS\nBEGIN TAXA; TITLE T1; DIMENSIONS NTAX=2; TAXLABELS a b; END;\n"
+                 "BEGIN TAXA; TITLE T2; DIMENSIONS NTAX=2; TAXLABELS c d; END;\n"
+                 "BEGIN TREES; LINK CHARACTERS = c1 taxa = T1; TREE x = (a,b); END;\n")
 
 
 def variants():
-    """which form of the two sites with a recorded finding the working tree has (Model/C13Model.v,
-    Section Routes: v_attach, v_keep_label) - decided by replaying the findings on the implementation"""
+    """which form of the sites with a recorded finding the working tree has (Model/C13Model.v:
+    v_attach, v_keep_label, v_link_ucase) - decided by replaying the findings on the implementation"""
     if not _VARIANTS:
         import dendropy
         doc = FIXED_DOCS[1][1]          # two TAXA blocks, LINKed TREES blocks
@@ -998,7 +1016,12 @@ def variants():
             _VARIANTS["attach"] = False
         t = dendropy.Tree.get(data=FIXED_DOCS[0][1], schema="nexus")
         _VARIANTS["keep_label"] = t.label == "foo"
-    return _VARIANTS["attach"], _VARIANTS["keep_label"]
+        try:        # is the keyword of a second LINK clause matched case-insensitively?
+            dendropy.DataSet.get(data=LINK_CASE_DOC, schema="nexus")
+            _VARIANTS["link_ucase"] = True
+        except Exception:
+            _VARIANTS["link_ucase"] = False
+    return _VARIANTS["attach"], _VARIANTS["keep_label"], _VARIANTS["link_ucase"]
 
 
 def to_coq(case, obs):
@@ -1034,8 +1057,8 @@ def to_coq_body(case, obs):
                        "(OBlocks %s)" % (c_err(D) if is_err(D) else "(Ok [%s])" % ";".join(c_sks(b["sk"]) for b in D["blocks"]))))
     strings = [t[0] for t in toks] + list(case["ns0"])
     low = "[" + ";".join("(%d,%d)" % p for p in lower_pairs(strings)) + "]"
-    va, vk = variants()
-    return "(mkCase %s %s %s %s [%s] %s [%s])" % (cbool(va), cbool(vk), cbool(case["schema"] == "nexus"), low, ";".join(c_token(t) for t in toks),
+    va, vk, vl = variants()
+    return "(mkCase %s %s %s %s %s [%s] %s [%s])" % (cbool(va), cbool(vk), cbool(vl), cbool(case["schema"] == "nexus"), low, ";".join(c_token(t) for t in toks),
                                             c_end(end), ";".join("(%s, %s)" % r for r in routes))
 
 
@@ -1058,7 +1081,7 @@ def count_case(ctx, case, obs):
     for k in ("taxa_blocks", "trees_blocks"):
         if k in f:
             ctx.count("%s:%d" % (k, f[k]))
-    for k in ("translate", "link", "unknown_block", "chars", "sets", "late_statement", "no_end", "ends_after_eq",
+    for k in ("translate", "link", "link_other_target", "unknown_block", "chars", "sets", "late_statement", "no_end", "ends_after_eq",
               "bad_header", "ntax_short", "no_dimensions"):
         if f.get(k):
             ctx.count("feature:" + k)
@@ -1081,6 +1104,10 @@ FIXED_DOCS = [
     ("nexus", "#NEXUS\nBEGIN TREES; END;\nBEGIN TREES; TREE y = (a,b); END;\n"),
     ("nexus", "#NEXUS\nBEGIN TREES;\n  TREE t ="),
     ("nexus", "#NEXUS\nBEGIN TREES;\n  TRANSLATE 1 A; TREE t = (1,A,b);\nEND;\nBEGIN TREES; TREE u = (A,b); END;"),
+    ("nexus", "#NEXUS\nBEGIN TAXA; TAXLABELS a b; END;\nBEGIN TREES; LINK FOO = x; TREE t = (a,b); END;\n"),
+    ("nexus", "#NEXUS\nBEGIN TREES; LINK TAXA = x"),
+    ("nexus", "#NEXUS\nBEGIN TAXA; TAXLABELS a b"),
+    ("nexus", " \n"),
     ("newick", "(a,b);(c,d);"),
     ("newick", ""),
     ("newick", "(a,b)"),
